@@ -139,6 +139,8 @@ def tlc_gen_replay(scratch, harness, family, spec, cfg, timeout_s, workers=None,
     t0 = time.time()
     p1 = subprocess.Popen(tcmd, cwd=sd, stdout=subprocess.PIPE, stderr=subprocess.STDOUT)
     henv = dict(os.environ)
+    if os.path.isdir("/dev/shm") and os.access("/dev/shm", os.W_OK):
+        henv["TMPDIR"] = "/dev/shm"      # the harness's temporary files (file readers/writers): tmpfs is 3x faster
     racelog = os.path.join(scratch, tag + ".race")
     if race:
         # collect race reports without aborting the replay; they are turned into violations below
